@@ -122,6 +122,7 @@ AccWant(ev, E) ==
     [] a \in {"Analyze.offsetWidth", "BatchAnalyze.offsetWidth", "ComputeWidth"} -> [num |-> ForWidth(xs), any |-> FALSE]
     [] a = "Analyze.runCount" -> [num |-> RunCount(xs), any |-> FALSE]
     [] a = "Analyze.encodedSize" -> [num |-> E.written, any |-> FALSE]
+    [] a = "GetFieldWidth" -> [num |-> GroupWidth(xs[ev.idx + 1]), any |-> FALSE]
     [] a = "MaxBitWidth" -> [num |-> LBitLen(LSeqMax(xs)), any |-> FALSE]
     [] a \in {"ReadMetadata.count", "GetCount", "ReadMeta.count", "GetFieldCount", "ReadMeta.originalCount"} ->
          [num |-> n, any |-> (c = "adaptive" /\ ~(E.hdr[1] \in {1, 2}))]   \* adaptive: documented as 0 for other encodings
